@@ -66,19 +66,23 @@ var c14Base []any
 
 func c14Val(label string) any {
 	k := vNondet[int](label + ".kind")
-	vAssume(0 <= k && k < 6)
+	vAssume(0 <= k && k < 7)
 	if c14Base == nil {
 		c14Base = []any{1, 2, 3}
 	}
 	// ... or a nested map with a symbolic key of its own: to the store it is a value like any other
 	return vPick(k, nil, vNondet[int](label+".int"), &vTok{id: 5}, map[string]any{vNondet[string](label + ".inner"): 7},
 		// two views of one backing array that differ in length only: different values all the same
-		c14Base[:2], c14Base[:3])
+		c14Base[:2], c14Base[:3],
+		[]int{4, 5}) // a typed slice: the typed getters convert it, the store keeps it as it is
 }
 
 // c14Agree: the store's observable abstraction equals the reference's
 func c14Agree(s *SharedStore, r *c14Ref, tag string) {
 	pk := vNondet[string]("probeKey")
+	// reads are reads: the typed getters leave the store's answers as they were
+	s.GetSliceOr(pk, nil)
+	s.GetIntOr(pk, 0)
 	v, ok := s.Get(pk)
 	i := r.find(pk)
 	vAssert(ok == (i >= 0), "get-found-agrees")
